@@ -217,57 +217,95 @@ pub fn try_abelianization(nr_gens: usize, rels: &[Vec<i64>], max_bits: u64) -> O
 }
 
 /// Same result as `try_abelianization`, for large presentations: generators that occur with
-/// exponent sum +-1 in some relation are eliminated first (exact i64 row operations, abandoned on
-/// overflow), which leaves the cokernel unchanged; the Smith form is computed on what remains.
+/// exponent sum +-1 in some relation are eliminated first (exact sparse i64 row operations,
+/// abandoned on overflow), which leaves the cokernel unchanged; the Smith form is computed on what
+/// remains.
 pub fn try_abelianization_fast(nr_gens: usize, rels: &[Vec<i64>], max_bits: u64) -> Option<Vec<BigInt>> {
-    let mut m = exponent_matrix(nr_gens, rels);
-    m.retain(|r| r.iter().any(|&x| x != 0));
+    // sparse rows: (column, value) sorted by column
+    let mut rows: Vec<Vec<(usize, i64)>> = exponent_matrix(nr_gens, rels)
+        .into_iter()
+        .map(|r| r.into_iter().enumerate().filter(|&(_, x)| x != 0).collect::<Vec<_>>())
+        .filter(|r: &Vec<(usize, i64)>| !r.is_empty())
+        .collect();
     let mut alive: Vec<bool> = vec![true; nr_gens];
     let mut n_alive = nr_gens;
     'outer: loop {
-        // a unit entry in the sparsest row that has one
-        let mut best: Option<(usize, usize, usize)> = None;
-        for (ri, row) in m.iter().enumerate() {
-            if let Some(c) = (0..nr_gens).find(|&c| alive[c] && (row[c] == 1 || row[c] == -1)) {
-                let w = row.iter().filter(|&&x| x != 0).count();
-                if best.map_or(true, |b| w < b.2) {
-                    best = Some((ri, c, w));
+        // the sparsest row that has a unit entry
+        let mut best: Option<(usize, usize, i64)> = None;
+        let mut best_w = usize::MAX;
+        for (ri, row) in rows.iter().enumerate() {
+            if row.len() < best_w {
+                if let Some(&(c, x)) = row.iter().find(|&&(_, x)| x == 1 || x == -1) {
+                    best = Some((ri, c, x));
+                    best_w = row.len();
+                    if best_w == 1 {
+                        break;
+                    }
                 }
             }
         }
-        let (ri, c, _) = match best {
+        let (ri, c, sign) = match best {
             None => break,
             Some(b) => b,
         };
-        let prow = m[ri].clone();
-        let sign = prow[c];
-        let mut next = Vec::with_capacity(m.len());
-        for (k, row) in m.iter().enumerate() {
-            if k == ri {
-                continue;
-            }
-            let f = row[c] * sign;
-            if f == 0 {
-                next.push(row.clone());
-                continue;
-            }
-            let mut out = row.clone();
-            for j in 0..nr_gens {
-                match prow[j].checked_mul(f).and_then(|p| out[j].checked_sub(p)) {
-                    Some(v) => out[j] = v,
-                    None => break 'outer, // overflow: leave the rest to the BigInt route (m untouched)
+        let prow = rows.swap_remove(ri);
+        let mut changed: Vec<(usize, Vec<(usize, i64)>)> = vec![];
+        for (k, row) in rows.iter().enumerate() {
+            let f = match row.binary_search_by_key(&c, |&(col, _)| col) {
+                Ok(pos) => row[pos].1 * sign,
+                Err(_) => continue,
+            };
+            // row - f * prow, merged by column
+            let mut out: Vec<(usize, i64)> = Vec::with_capacity(row.len() + prow.len());
+            let (mut a, mut b) = (0, 0);
+            while a < row.len() || b < prow.len() {
+                let ca = row.get(a).map_or(usize::MAX, |e| e.0);
+                let cb = prow.get(b).map_or(usize::MAX, |e| e.0);
+                let (col, val) = if ca < cb {
+                    a += 1;
+                    (ca, Some(row[a - 1].1))
+                } else if cb < ca {
+                    b += 1;
+                    (cb, prow[b - 1].1.checked_mul(f).and_then(|p| 0i64.checked_sub(p)))
+                } else {
+                    a += 1;
+                    b += 1;
+                    (ca, prow[b - 1].1.checked_mul(f).and_then(|p| row[a - 1].1.checked_sub(p)))
+                };
+                match val {
+                    None => {
+                        // overflow: undo nothing (rows untouched so far), put the pivot row back, stop eliminating
+                        rows.push(prow);
+                        break 'outer;
+                    }
+                    Some(0) => {}
+                    Some(v) => out.push((col, v)),
                 }
             }
-            if out.iter().any(|&x| x != 0) {
-                next.push(out);
-            }
+            changed.push((k, out));
         }
-        m = next;
+        for (k, out) in changed {
+            rows[k] = out;
+        }
+        rows.retain(|r| !r.is_empty());
         alive[c] = false;
         n_alive -= 1;
     }
     let cols: Vec<usize> = (0..nr_gens).filter(|&c| alive[c]).collect();
-    let reduced: Vec<Vec<i64>> = m.iter().map(|r| cols.iter().map(|&c| r[c]).collect()).collect();
+    let mut pos = vec![usize::MAX; nr_gens];
+    for (k, &c) in cols.iter().enumerate() {
+        pos[c] = k;
+    }
+    let reduced: Vec<Vec<i64>> = rows
+        .iter()
+        .map(|r| {
+            let mut out = vec![0i64; cols.len()];
+            for &(c, v) in r {
+                out[pos[c]] = v;
+            }
+            out
+        })
+        .collect();
     let d = if reduced.is_empty() || n_alive == 0 { vec![] } else { try_smith_diagonal(&to_big(&reduced), max_bits)? };
     Some(abelian_invariants_from_diag(n_alive, &d))
 }
